@@ -1,6 +1,6 @@
 import Rawr.Props.C14
 import Rawr.Model.TimeBudget
-import Rawr.Proofs.RustFnsAgree
+import Rawr.Proofs.RustTimeAgree
 /-!
 # C14 / C03, clock limits: the budget arithmetic of `should_stop` and what the driver does once it has elapsed
 
